@@ -3,5 +3,8 @@ CONSTANTS
   MaxSteps = 8
   MaxIno = 5
   FIX_REPOINT = TRUE
+  OPS = FALSE
+  MASK_ADD = TRUE
+  ALIAS_OPS = FALSE
 INVARIANTS NoPanic TablesAgree MarksBacked ListOK
 CHECK_DEADLOCK FALSE
